@@ -201,6 +201,15 @@ def _check_form(args):
     rng = rng_for(seed, PID, "oracle", i)
     prof = forms.Profile(adversarial=0.6, p_ref_in_label=0.5, max_rows=rng.choice([3, 6, 10]))
     form = forms.gen_form(rng, prof)
+    if i % 3 == 0:
+        # several references in one text, separated by white space only (the space between two <output/>s is content)
+        rx = rng_for(seed, PID, "multi-ref", i)
+        qn = [r["name"] for r in form["survey"] if r.get("name") and not r["type"].startswith(("begin", "end"))]
+        if qn:
+            a, b = rx.choice(qn), rx.choice(qn)
+            form["survey"].append({"type": "note", "name": "mr_note9",
+                                   "label": rx.choice(["${%s} ${%s}", "Full name: ${%s} ${%s}.", "${%s}  ${%s}", "${%s}\t${%s} x", "${%s}${%s}", "${%s} - ${%s}"]) % (a, b),
+                                   "hint": rx.choice(["${%s} ${%s}", "see ${%s} ${%s}"]) % (b, a)})
     d = forms.as_dict(form)
     st1, r1 = xf.convert_form(d, pretty_print=False)
     st2, r2 = xf.convert_form(d, pretty_print=True)
